@@ -9,9 +9,13 @@ from vp.ref import meshadj
 PROPERTY = "C07"
 RULE = (
     "Hypothesis scenarios from vp/scene.py: ring-padded masks (inner part up to 4x4), a mapper on a rectangular mesh "
-    "(3..5 x 3..5) or a Delaunay mesh (jittered 2..5 x 2..5 lattice, >= 5 vertices) over an affine/warped source grid with "
+    "(3..5 x 3..5) or a Delaunay mesh (2..5 x 2..5 lattice, >= 5 vertices; vertex classes: general position by a jitter "
+    "<= 0.3 cells, exact lattice = the regular grid an Overlay image-mesh produces incl. 4x5 / 5x5 / 5x4 / 3x3 (three draws "
+    "in seven; co-circular cells, collinear hull points), raw drawn jitter) over an affine/warped source grid with "
     "uniform or per-pixel sub-size, positive adapt images with a drawn dynamic range (0..6 decades), coefficients and "
-    "signal scales log-uniform in [1e-2, 1e2]. One sub-check per scheme family: neighbour-difference (Constant, "
+    "signal scales log-uniform in [1e-2, 1e2] with explicit exact-equality classes: coefficient exactly 1.0 (one draw in "
+    "five), inner_coefficient == outer_coefficient (one in three), signal_scale exactly 1.0 and exactly 0 (one in six each). "
+    "One sub-check per scheme family: neighbour-difference (Constant, "
     "ConstantZeroth, AdaptiveBrightness), zeroth (Zeroth, BrightnessZeroth), split-cross on Delaunay meshes (ConstantSplit, "
     "AdaptiveBrightnessSplit, AdaptiveBrightnessSplitZeroth), kernel (GaussianKernel scale 0.3..1.5 pixel widths on "
     "rectangular / 0.3..4 x minimum vertex separation on Delaunay meshes, ExponentialKernel 0.3..16 x). Oracle per matrix: "
@@ -22,13 +26,24 @@ RULE = (
     "AdaptiveBrightness: x^T H x for two generated vectors == sum over unordered neighbouring pairs of weight*(x_i-x_j)^2 + "
     "1e-8|x|^2 with weight c^2 resp. w_i^2+w_j^2 (w = the scheme's own regularization_weights_from), the symmetric part of H "
     "entrywise == the matrix of that quadratic form (polarisation), and 1^T H 1 == 1e-8*n (ridge); neighbouring pairs come "
-    "from an independent adjacency (4-connectivity of the row-major rectangle; brute-force empty-circumcircle Delaunay edges, "
-    "with the implementation's own list accepted between the strict and possible edge sets when co-circular vertices make the "
-    "triangulation ambiguous). Block assembly: inversion.regularization_matrix == block diagonal, in object order, of each "
+    "from an independent adjacency (4-connectivity of the row-major rectangle; brute-force empty-circumcircle Delaunay edges). "
+    "For every Delaunay mesh the implementation's neighbour list must lie between the certain and the possible Delaunay edges, "
+    "be the edge set of a triangulation of the vertices (no two edges cross, no edge runs through a vertex, exactly 3n-3-h "
+    "edges with h = vertices on the hull boundary, collinear ones included; skipped and counted when a near-collinear hull "
+    "triple makes h undecidable) and equal the edge set of mesh.delaunay.simplices, which must tile the convex hull "
+    "(non-degenerate, no vertex inside a simplex, areas sum to the monotone-chain hull area within 1e-9) with Delaunay edges "
+    "only; when co-circular vertices make the Delaunay triangulation non-unique, the neighbouring pairs of the quadratic form "
+    "are the edges of that validated triangulation the mapper interpolates on. Block assembly: inversion.regularization_matrix == block diagonal, in object order, of each "
     "object's matrix computed on freshly built objects (zero block for an unregularized object, zero off-diagonal blocks), "
-    "regularization_matrix_reduced == that matrix with the unregularized objects' rows/columns deleted. "
+    "regularization_matrix_reduced == that matrix with the unregularized objects' rows/columns deleted. Scheme re-assignment: "
+    "1-2 objects, optional first read, then 2-3 generated steps that re-assign `regularization` of one object (another scheme, "
+    "the same scheme with other coefficients, or None) on the same object, on a copy.copy of it, or by mutating the scheme "
+    "instance's attributes; after each step linear_obj.regularization_matrix and / or the matrices of an Inversion built "
+    "afterwards must equal those of freshly built objects carrying the new schemes (zero block for None), and the object that "
+    "was copied must still give its old matrix. "
     "hypothesis.target(-min eigenvalue / max|H|). Non-trivial = mesh has >= 6 pixels of non-uniform degree (and, for adaptive "
-    "schemes, non-constant weights); for block assembly >= 2 objects whose blocks differ under reversal; distinct = SHA-1 of "
+    "schemes, non-constant weights or one of the explicit equal-coefficient / zero-signal-scale classes); for block assembly "
+    ">= 2 objects whose blocks differ under reversal; for re-assignment a step that changes the scheme after a read; distinct = SHA-1 of "
     "the canonical case."
 )
 ASSUMPTIONS = [
@@ -40,11 +55,16 @@ ASSUMPTIONS = [
     "tolerances: symmetry / PSD 1e-10*max|H| (kernels: max(1e-10, 8*eps*cond)); quadratic forms rtol 1e-9 + 32*eps*|x|^T|H||x|; "
     "entrywise rtol 1e-9 + 16*eps*max|H|; ridge probe rtol 1e-6 + 8*eps*sum|H| (skipped as a tie when that exceeds a quarter of 1e-8*n); "
     "block assembly 1e-12*max|H|",
+    "signal_scale exactly 0 is outside the statement's 'positive signal scales' but well defined (pixel_signals ** 0 == 1, weights "
+    "independent of the adapt image); it is generated as an explicit class and only the statement's own clauses are demanded of it",
+    "re-assignment: the matrix must follow the scheme the object currently carries (the library's own idiom is copy.copy(mapper) + "
+    "mapper.regularization = ...); compared with freshly built objects at 1e-12*max|H|",
     "MaternKernel cannot be constructed without numba_scipy and is outside the statement's quantifier; "
     "AdaptiveBrightnessSplitZeroth is not in the quantifier's list but is covered by the statement's first sentence and is checked as a split-cross scheme",
 ]
 TECHNIQUE = ("Hypothesis-generated mappers and schemes checked against closed-form quadratic forms over an independent mesh adjacency, "
-             "eigenvalue / Cholesky certificates with stated conditioning bands, and differential block-diagonal assembly")
+             "(triangulation validity by planarity + Euler edge count for degenerate vertex sets), eigenvalue / Cholesky certificates "
+             "with stated conditioning bands, differential block-diagonal assembly and generated re-assignment sequences against fresh objects")
 
 EPS = float(np.finfo(float).eps)
 RIDGE = 1.0e-8
@@ -62,10 +82,27 @@ ADAPTIVE = {"adaptive_brightness", "adaptive_brightness_split", "adaptive_bright
 # ---------------------------------------------------------------------------------------------
 # strategies
 # ---------------------------------------------------------------------------------------------
-_logu = st.floats(-2.0, 2.0).map(lambda e: 10.0 ** e)
-# adaptive schemes raise the coefficients to the fourth power (weights = (..)^2, matrix uses weights^2): two thirds of the
+# log-uniform in [1e-2, 1e2]; parametrised from the lower end so that Hypothesis' preference for the simplest draw does not
+# pile the generic class onto 10**0 (exactly 1.0 is a class of its own below)
+_logu_any = st.floats(0.0, 4.0).map(lambda e: 10.0 ** (e - 2.0))
+_logu_low = st.floats(0.0, 2.9).map(lambda e: 10.0 ** (e - 2.0))
+# coefficient exactly 1.0 (the package default) is an explicit class: one draw in five
+_logu = st.one_of(_logu_any, _logu_any, st.just(1.0), _logu_any, _logu_any)
+# adaptive schemes raise the coefficients to the fourth power (weights = (..)^2, matrix uses weights^2): most of the
 # draws stay below 10^0.9 so that the 1e-8 ridge is not lost in round-off and strict definiteness can be certified
-_logu_ab = st.one_of(st.floats(-2.0, 0.9), st.floats(-2.0, 0.9), st.floats(-2.0, 2.0)).map(lambda e: 10.0 ** e)
+_logu_ab = st.one_of(_logu_low, _logu_low, st.just(1.0), _logu_low, _logu_any)
+# signal scale: exactly 1.0 (default) and exactly 0 (signals ** 0 == 1: weights independent of the adapt image) are
+# explicit classes next to the log-uniform positive range of the statement
+_signal_scale = st.one_of(_logu_any, _logu_any, st.just(1.0), st.just(0.0), _logu_any, _logu_any)
+
+
+@st.composite
+def _adaptive_coefficients(draw, spec):
+    spec["inner_coefficient"] = draw(_logu_ab)
+    # inner == outer exactly (the package default) in one case out of three
+    spec["outer_coefficient"] = spec["inner_coefficient"] if draw(st.integers(0, 2)) == 2 else draw(_logu_ab)
+    spec["signal_scale"] = draw(_signal_scale)
+    return spec
 
 
 @st.composite
@@ -75,20 +112,31 @@ def reg_spec(draw, types, mesh):
     if t in ("constant", "constant_split", "zeroth"):
         spec["coefficient"] = draw(_logu)
     elif t == "constant_zeroth":
-        spec["coefficient_neighbor"] = draw(_logu); spec["coefficient_zeroth"] = draw(_logu)
+        spec["coefficient_neighbor"] = draw(_logu)
+        spec["coefficient_zeroth"] = spec["coefficient_neighbor"] if draw(st.integers(0, 3)) == 0 else draw(_logu)
     elif t in ("adaptive_brightness", "adaptive_brightness_split", "adaptive_brightness_split_zeroth"):
-        spec["inner_coefficient"] = draw(_logu_ab); spec["outer_coefficient"] = draw(_logu_ab)
-        spec["signal_scale"] = draw(_logu)
+        spec = draw(_adaptive_coefficients(spec))
         if t.endswith("zeroth"):
-            spec["zeroth_coefficient"] = draw(_logu); spec["zeroth_signal_scale"] = draw(_logu)
+            spec["zeroth_coefficient"] = draw(_logu); spec["zeroth_signal_scale"] = draw(_signal_scale)
     elif t == "brightness_zeroth":
-        spec["coefficient"] = draw(_logu); spec["signal_scale"] = draw(_logu)
+        spec["coefficient"] = draw(_logu); spec["signal_scale"] = draw(_signal_scale)
     elif t == "gaussian_kernel":
         # conditioning bounds of the design: covariance well conditioned enough that definiteness is about the code
         spec["coefficient"] = draw(_logu); spec["scale_rel"] = draw(st.floats(0.3, 1.5 if mesh == "rect" else 4.0))
     elif t == "exponential_kernel":
         spec["coefficient"] = draw(_logu); spec["scale_rel"] = draw(st.floats(0.3, 16.0))
     return spec
+
+
+def param_labels(spec, ctx):
+    if spec is None:
+        return
+    if "inner_coefficient" in spec:
+        ctx.label("coeff:inner==outer" if spec["inner_coefficient"] == spec["outer_coefficient"] else "coeff:inner!=outer")
+    if any(spec.get(k) == 1.0 for k in ("coefficient", "inner_coefficient", "outer_coefficient", "coefficient_neighbor")):
+        ctx.label("coeff:exactly-1")
+    if "signal_scale" in spec:
+        ctx.label("signal_scale:%s" % ("1" if spec["signal_scale"] == 1.0 else "0" if spec["signal_scale"] == 0.0 else "other"))
 
 
 def _params(obj):
@@ -107,16 +155,34 @@ def adapt_images(draw, n):
     return [scale * 10.0 ** (-dr * v) for v in u]
 
 
+MIN_JITTER = 1.0e-3
+
+
 def _hash01(k):
     x = np.sin(float(k) * 12.9898 + 78.233) * 43758.5453
     return float(2.0 * (x - np.floor(x)) - 1.0)
 
 
 def _general_position(draw, obj):
-    """Hypothesis likes lists full of zeros, i.e. an exact lattice whose Delaunay triangulation is ambiguous; in four of
-    five cases mix a fixed pseudo-jitter (a function of the index, |.| <= 0.03 cells) into the drawn jitter."""
-    if obj["type"] == "delaunay" and draw(st.integers(0, 4)) > 0:
-        obj["jitter"] = [0.9 * v + 0.03 * _hash01(k) for k, v in enumerate(obj["jitter"])]
+    """Vertex-set classes of a Delaunay mesh: `general` (three in seven: a fixed pseudo-jitter, a function of the index with
+    |.| <= 0.03 cells, is mixed into the drawn jitter so that Hypothesis' lists full of zeros do not collapse onto a
+    lattice), `exact-lattice` (three in seven: no jitter at all, the regular grid an Overlay image-mesh produces, every cell
+    co-circular, hull points collinear; the Delaunay triangulation is not unique) and `raw` (the drawn jitter, typically
+    partly zero: a lattice with some displaced vertices)."""
+    if obj["type"] == "delaunay":
+        mode = draw(st.sampled_from(["general", "exact-lattice", "general", "exact-lattice", "general", "exact-lattice", "raw"]))
+        if mode == "general":
+            obj["jitter"] = [0.9 * v + 0.03 * _hash01(k) for k, v in enumerate(obj["jitter"])]
+        elif mode == "exact-lattice":
+            obj["jitter"] = [0.0] * len(obj["jitter"])
+            if draw(st.booleans()):  # the shapes named in the brief, otherwise the drawn 2..5 x 2..5
+                obj["lattice"] = draw(st.sampled_from([[4, 5], [5, 5], [5, 4], [3, 3]]))
+                obj["jitter"] = [0.0] * (2 * obj["lattice"][0] * obj["lattice"][1])
+        # a vertex is either exactly on its lattice site or displaced by >= 1e-3 cells: displacements of 1e-16..1e-6 cells
+        # (Hypothesis' "nasty" floats) give near-degenerate sets on which qhull's own tolerances decide which diagonal is
+        # taken and whether flat simplices appear; no statement about the library can be tested there
+        obj["jitter"] = [0.0 if abs(v) < MIN_JITTER / 2 else (MIN_JITTER if v > 0 else -MIN_JITTER) if abs(v) < MIN_JITTER else v
+                         for v in obj["jitter"]]
     return obj
 
 
@@ -165,6 +231,50 @@ def block_cases(draw):
     return img
 
 
+def _types_for(obj):
+    if obj["type"] == "func":
+        return ["constant"]
+    return [t for t in ALL_TYPES if obj["type"] == "delaunay" or "split" not in t]
+
+
+@st.composite
+def reuse_cases(draw):
+    """1-2 linear objects, an initial scheme each, then 2-3 steps that re-assign the regularization of one object (on the
+    same object, on a copy.copy of it, or by mutating the scheme instance's attributes) with reads in between."""
+    img = draw(scene.imaging_cases(max_inner=4, max_k=3, kernel_kinds=("nonneg", "signed")))
+    n = sum(1 for r in img["mask"] for v in r if not v)
+    objs = []
+    for _ in range(draw(st.sampled_from([1, 1, 2]))):
+        obj = draw(scene.obj_specs(n, kinds=("rect", "rect", "delaunay", "delaunay", "func"), reg_types=("constant",),
+                                   reg_none=True, max_sub=2, max_mesh=4))
+        if obj["type"] != "func":
+            obj = _general_position(draw, obj)
+        obj["reg"] = None if draw(st.integers(0, 4)) == 0 else draw(reg_spec(_types_for(obj), obj["type"]))
+        objs.append(obj)
+    img["objs"] = objs
+    img["adapt"] = draw(adapt_images(n))
+    img["read_first"] = draw(st.sampled_from(["obj", "inversion", "both", "both", "none"]))
+    cur = [o["reg"] for o in objs]
+    steps = []
+    for _ in range(draw(st.sampled_from([2, 2, 3]))):
+        i = draw(st.integers(0, len(objs) - 1))
+        how = draw(st.sampled_from(["assign", "assign", "copy", "copy", "mutate"]))
+        if how == "mutate" and cur[i] is None:
+            how = "assign"
+        if how == "mutate":
+            reg = draw(reg_spec([cur[i]["type"]], objs[i]["type"]))
+        elif draw(st.integers(0, 3)) == 0:
+            reg = None
+        elif cur[i] is not None and draw(st.integers(0, 2)) == 0:
+            reg = draw(reg_spec([cur[i]["type"]], objs[i]["type"]))      # same scheme, other coefficients
+        else:
+            reg = draw(reg_spec(_types_for(objs[i]), objs[i]["type"]))
+        cur[i] = reg
+        steps.append({"obj": i, "how": how, "reg": reg, "read": draw(st.sampled_from(["obj", "inversion", "both"]))})
+    img["steps"] = steps
+    return img
+
+
 # ---------------------------------------------------------------------------------------------
 # builders (helpers local to C07: scene.build_reg does not know Zeroth / AdaptiveBrightnessSplitZeroth)
 # ---------------------------------------------------------------------------------------------
@@ -205,25 +315,67 @@ def _target(value, label):
 # ---------------------------------------------------------------------------------------------
 # oracles
 # ---------------------------------------------------------------------------------------------
-def reference_pairs(spec, info, obj, ctx, key):
-    """Independent unordered neighbour pairs of the mesh; returns (pairs, degree array)."""
+def reference_pairs(spec, info, obj, ctx, key=None):
+    """Independent unordered neighbour pairs of the mesh; returns (pairs, degree array).
+
+    Delaunay meshes: in general position the pairs are the brute-force empty-circumcircle edges.  With co-circular vertices
+    (exact lattices) the Delaunay triangulation is not unique; the neighbouring pairs are then the edges of the
+    triangulation the mapper interpolates on (mesh.delaunay.simplices), after checking that those simplices really are a
+    Delaunay triangulation of the vertices.  In every case the implementation's neighbour list must be the edge set of a
+    triangulation (planar, 3n-3-h edges), lie between the certain and the possible Delaunay edges, and equal the edge set
+    of the mesh's own simplices, which must tile the convex hull."""
     if spec["type"] == "rect":
         pairs = meshadj.rect_pairs(spec["shape"])
         ctx.label("adjacency:rect")
     else:
-        strict, possible = meshadj.delaunay_pairs(info["vertices"])
+        verts = info["vertices"]
+        jit = spec["jitter"]
+        ctx.label("vertices:exact-lattice" if not any(jit) else "vertices:partly-on-lattice" if 0.0 in jit else "vertices:general")
+        ctx.label("lattice:%dx%d" % tuple(spec["lattice"]) if not any(jit) else None)
+        mk = "mesh/delaunay"
+        if any(0.0 < abs(v) < MIN_JITTER for v in jit):
+            # never generated (see _general_position); a hand-written replay with such a vertex set is not judged
+            ctx.tie(); ctx.label("vertices:near-degenerate-not-judged")
+            simplices = np.asarray(obj.source_plane_mesh_grid.delaunay.simplices)
+            pairs = meshadj.simplices_defects(verts, simplices)[1]
+            deg = np.zeros(_params(spec), dtype=int)
+            for i, j in pairs:
+                deg[i] += 1; deg[j] += 1
+            return pairs, deg
+        strict, possible = meshadj.delaunay_pairs(verts)
+        nb = obj.neighbors
+        impl, _ = meshadj.pairs_from_neighbor_lists(np.asarray(nb), np.asarray(nb.sizes))
+        ctx.check(strict <= impl <= possible, mk + "/neighbours-not-delaunay",
+                  lambda: "neighbour list misses certain Delaunay edges %s / has impossible edges %s" % (
+                      sorted(strict - impl), sorted(impl - possible)))
+        defects, skipped = meshadj.triangulation_defects(verts, impl)
+        ctx.tie(skipped)
+        ctx.check(not defects, mk + "/neighbours-not-a-triangulation",
+                  lambda: "neighbour pairs are not the edge set of a triangulation of the %d vertices: %s" % (len(verts), "; ".join(defects)))
+        simplices = np.asarray(obj.source_plane_mesh_grid.delaunay.simplices)
+        sdef, sedges, und1 = meshadj.simplices_defects(verts, simplices)
+        pdef, und2 = meshadj.planar_defects(verts, sedges)
+        sdef = sdef + pdef
+        ctx.tie(und1 + und2)
+        if und1 + und2 + skipped:
+            ctx.label("vertices:near-degenerate-within-band")
+        if not (strict <= sedges <= possible):
+            sdef.append("simplex edges miss certain Delaunay edges %s / have impossible edges %s" % (sorted(strict - sedges), sorted(sedges - possible)))
+        ctx.check(not sdef, mk + "/simplices-not-a-delaunay-triangulation", lambda: "; ".join(sdef))
+        ctx.check(impl == sedges, mk + "/neighbours-differ-from-simplices",
+                  lambda: "neighbour pairs differ from the edges of mesh.delaunay.simplices: missing %s, extra %s" % (
+                      sorted(sedges - impl), sorted(impl - sedges)))
         if strict == possible:
             pairs = strict
             ctx.label("adjacency:delaunay-unique")
         else:
-            # co-circular / collinear vertices: the triangulation is not unique; accept the implementation's edge set if
-            # it lies between the certain and the possible Delaunay edges, and use it
-            nb = obj.neighbors
-            impl, _ = meshadj.pairs_from_neighbor_lists(np.asarray(nb), np.asarray(nb.sizes))
-            ctx.tie(); ctx.label("adjacency:delaunay-ambiguous")
-            ctx.check(strict <= impl <= possible, key + "/neighbours-not-delaunay",
-                      lambda: "missing certain edges %s, impossible edges %s" % (sorted(strict - impl), sorted(impl - possible)))
-            pairs = impl if strict <= impl <= possible else strict
+            ctx.label("adjacency:delaunay-ambiguous")
+            if not sdef:
+                pairs = sedges          # the triangulation the mapper interpolates on, validated above
+            elif not defects and strict <= impl <= possible:
+                pairs = impl
+            else:
+                pairs = strict
     n = _params(spec)
     deg = np.zeros(n, dtype=int)
     for i, j in pairs:
@@ -290,6 +442,7 @@ def body_scheme(case, ctx):
     mesh = spec["type"]
     key = "%s/%s" % (t, mesh)
     ctx.label("scheme:%s" % t, "mesh:%s" % mesh, "scheme-mesh:%s" % key)
+    param_labels(spec["reg"], ctx)
     _, objs, infos = build_objs(case)
     obj, info = objs[0], infos[0]
     reg = obj.regularization
@@ -323,7 +476,9 @@ def body_scheme(case, ctx):
         if t in ADAPTIVE:
             spread = w.shape == (n,) and float(np.ptp(w)) > 1e-6 * float(np.abs(w).max() + 1e-300)
             ctx.label("weights:varying" if spread else "weights:constant")
-            nontrivial = nontrivial and spread
+            r = spec["reg"]
+            explicit_equal = r.get("inner_coefficient", 0) == r.get("outer_coefficient", 1) or r.get("signal_scale") == 0.0
+            nontrivial = nontrivial and (spread or explicit_equal)
     ctx.nt(nontrivial)
 
     if t in ("constant", "adaptive_brightness") and w is not None and w.shape == (n,):
@@ -436,6 +591,96 @@ def body_blocks(case, ctx):
               what="regularization_matrix_reduced vs block diagonal of the regularized objects")
 
 
+# ---------------------------------------------------------------------------------------------
+# re-use of a linear object with another scheme
+# ---------------------------------------------------------------------------------------------
+def _fresh_blocks(case, regs):
+    """Matrices of freshly built objects carrying `regs` (zero block for None)."""
+    c = dict(case)
+    c["objs"] = [dict(o, reg=r) for o, r in zip(case["objs"], regs)]
+    _, objs, _ = build_objs(c)
+    out = []
+    for o in objs:
+        p = int(o.params)
+        out.append(np.zeros((p, p)) if o.regularization is None
+                   else np.array(o.regularization.regularization_matrix_from(linear_obj=o), dtype=float))
+    return out
+
+
+def _block_diag(blocks):
+    total = sum(len(b) for b in blocks)
+    m = np.zeros((total, total)); lo = 0
+    for b in blocks:
+        m[lo:lo + len(b), lo:lo + len(b)] = b; lo += len(b)
+    return m
+
+
+def body_reuse(case, ctx):
+    import copy
+    import autoarray as aa
+    mask, objs, infos = build_objs(case)
+    dataset = scene.build_imaging(case, mask)
+    cur = [o["reg"] for o in case["objs"]]
+    ctx.label("objs:%d" % len(objs), "read-first:%s" % case["read_first"])
+    for o in case["objs"]:
+        ctx.label("obj:%s" % o["type"])
+
+    def read(how, tag, changed):
+        blocks = _fresh_blocks(case, cur)
+        mx = max([float(np.abs(b).max()) for b in blocks if b.size] + [0.0])
+        atol = 1e-12 * mx
+        if how in ("obj", "both"):
+            for k, (o, b) in enumerate(zip(objs, blocks)):
+                got = np.array(ctx.impl("reuse/linear_obj/regularization_matrix", lambda: o.regularization_matrix), dtype=float)
+                suffix = "/unregularized-block-not-zero" if cur[k] is None else "/stale"
+                ctx.close(got, b, "reuse/%s/linear_obj%s" % (tag if k == changed else "untouched", suffix), atol=atol,
+                          what="linear_obj.regularization_matrix of object %d (%s) vs a freshly built object with scheme %s" % (
+                              k, case["objs"][k]["type"], cur[k] and cur[k]["type"]))
+        if how in ("inversion", "both"):
+            inv = ctx.impl("reuse/inversion/construct", aa.Inversion, dataset=dataset, linear_obj_list=list(objs), settings=_settings(aa))
+            got = np.array(ctx.impl("reuse/inversion/regularization_matrix", lambda: inv.regularization_matrix), dtype=float)
+            want = _block_diag(blocks)
+            none_changed = changed is not None and cur[changed] is None
+            ctx.close(got, want, "reuse/%s/inversion%s" % (tag, "/unregularized-block-not-zero" if none_changed else "/stale"), atol=atol,
+                      what="regularization_matrix of an inversion built after the re-assignment vs block diagonal of freshly built objects")
+            lo = 0; keep = []
+            for b, r in zip(blocks, cur):
+                if r is not None:
+                    keep.extend(range(lo, lo + len(b)))
+                lo += len(b)
+            red = np.array(ctx.impl("reuse/inversion/regularization_matrix_reduced", lambda: inv.regularization_matrix_reduced), dtype=float)
+            ctx.close(red, want[np.ix_(keep, keep)], "reuse/%s/inversion-reduced" % tag, atol=atol,
+                      what="regularization_matrix_reduced of an inversion built after the re-assignment")
+
+    if case["read_first"] != "none":
+        read(case["read_first"], "initial", None)
+    nontrivial = False
+    for step in case["steps"]:
+        i, how, spec = step["obj"], step["how"], step["reg"]
+        min_sep = infos[i].get("min_sep", 1.0)
+        old_spec = cur[i]
+        kind = "to-none" if spec is None else "from-none" if old_spec is None else \
+            "same-scheme" if spec["type"] == old_spec["type"] else "other-scheme"
+        ctx.label("step:%s" % how, "change:%s" % kind, "read:%s" % step["read"])
+        param_labels(spec, ctx)
+        if how == "assign":
+            objs[i].regularization = build_reg(spec, min_sep)
+        elif how == "copy":
+            original, before = objs[i], _fresh_blocks(case, cur)[i]
+            objs[i] = copy.copy(original)
+            objs[i].regularization = build_reg(spec, min_sep)
+        else:  # mutate the attributes of the scheme instance the object carries
+            objs[i].regularization.__dict__.update(build_reg(spec, min_sep).__dict__)
+        cur[i] = spec
+        nontrivial = nontrivial or (spec != old_spec and case["read_first"] != "none")
+        read(step["read"], how, i)
+        if how == "copy":
+            got = np.array(original.regularization_matrix, dtype=float)
+            ctx.close(got, before, "reuse/copy/original-changed", atol=1e-12 * float(np.abs(before).max() if before.size else 0.0),
+                      what="regularization_matrix of the object that was copied, after re-assigning the copy's scheme")
+    ctx.nt(nontrivial)
+
+
 def _ex(q, t):
     return {"quick": q, "thorough": t}
 
@@ -450,5 +695,7 @@ SUBCHECKS = [
     SubCheck("kernel-schemes", body_scheme, strategy=scheme_cases("kernel"),
              examples=_ex(600, 6400), shards=_ex(3, 16)),
     SubCheck("block-assembly", body_blocks, strategy=block_cases(),
+             examples=_ex(480, 4800), shards=_ex(3, 16)),
+    SubCheck("scheme-reassignment", body_reuse, strategy=reuse_cases(),
              examples=_ex(480, 4800), shards=_ex(3, 16)),
 ]
